@@ -1,0 +1,9 @@
+//go:build verif
+
+package vgis3
+
+// Verification hooks (build tag "verif") for the S3 object-key generator.
+// Add-only; nothing here is compiled into normal builds.
+
+// VerifC33GenerateUUID returns what Upload appends to the configured prefix.
+func VerifC33GenerateUUID() string { return generateUUID() }
